@@ -1474,6 +1474,40 @@ fn c13_decode_twice(ctx: &mut Ctx, rng: &mut Rng, f: &[u8]) {
     }
 }
 
+/// 1029 frames whose byte count announces 1..=8 bytes more than the payload holds, built so that the three checksum
+/// bytes are printable ASCII: a decoder that reads the text straight from the caller's buffer would find valid
+/// UTF-8 behind the payload -- in the checksum and in whatever follows the frame.
+fn c13_text_running_past_the_payload(ctx: &mut Ctx, rng: &mut Rng) {
+    let actual = rng.range(0, 40) as usize;
+    let extra = rng.range(1, 8) as usize;
+    for attempt in 0..400u32 {
+        let mut p = vec![0u8; 9 + actual];
+        bits::write(&mut p, 0, 12, 1029);
+        bits::write(&mut p, 12, 12, rng.below(4096) as u128);
+        bits::write(&mut p, 24, 16, (attempt as u128 * 7 + rng.below(60000) as u128) & 0xFFFF);
+        bits::write(&mut p, 40, 17, rng.below(86400) as u128);
+        bits::write(&mut p, crate::oracle::layout::M1029_CHARS_BIT, 7, ((actual + extra).min(127)) as u128);
+        bits::write(&mut p, crate::oracle::layout::M1029_BYTES_BIT, 8, (actual + extra) as u128);
+        for b in p[9..].iter_mut() {
+            *b = b'A' + (rng.below(26) as u8);
+        }
+        let f = crc::frame(&p);
+        let n = f.len();
+        if f[n - 3..].iter().all(|b| (0x20..0x7F).contains(b)) {
+            ctx.count("text_frames_announcing_more_bytes_than_present_with_printable_checksum");
+            let mut sfx: Vec<Vec<u8>> = vec![b"Y?k$G CONTINUES HERE".to_vec(), b"abcdefgh".to_vec(), vec![b'z'; 5], vec![0xC3, 0xA9, 0xC3, 0xA9, 0xC3, 0xA9, 0xC3, 0xA9]];
+            let pl = rng.usize_below(12);
+            let q = rng.bytes(pl);
+            sfx.push(crc::frame(&q));
+            let mut t = b"12345".to_vec();
+            t.extend(crc::frame(&q));
+            sfx.push(t);
+            c13_check(ctx, &f, &sfx, "text_frames_announcing_more_bytes_than_present");
+            return;
+        }
+    }
+}
+
 fn suffix_set(rng: &mut Rng) -> Vec<Vec<u8>> {
     let mut v: Vec<Vec<u8>> = Vec::new();
     v.push(vec![rng.u8()]);
@@ -1549,6 +1583,9 @@ pub fn c13(p: &Params) -> Outcome {
                     ctx.count("frames_with_suffixes_beyond_64KiB");
                 }
                 c13_check(ctx, &f, &sfx, "typed_frames");
+                if i % 8 == 3 {
+                    c13_text_running_past_the_payload(ctx, &mut rng);
+                }
                 c13_after_near_copy(ctx, &mut rng, &f);
                 c13_decode_twice(ctx, &mut rng, &f);
             }
@@ -1560,7 +1597,7 @@ pub fn c13(p: &Params) -> Outcome {
     }
     Outcome {
         ctx: total,
-        rule: "every L in 0..=1023 and frames of every message type x suffixes {1 byte, 2 bytes, 3..2000 random, another frame, 0xD3.., 0xFF.., zeros, line ends / foreign sync bytes / text alone, before a preamble byte and before a frame, 1..3 special bytes}; oracle = all accessors and the decoded message equal those of the frame alone, number = first 12 payload bits iff L >= 2; non-trivial = non-empty suffix; distinct by (frame, suffix) hash".into(),
+        rule: "every L in 0..=1023 and frames of every message type x suffixes {1 byte, 2 bytes, 3..2000 random, another frame, 0xD3.., 0xFF.., zeros, line ends / foreign sync bytes / text alone, before a preamble byte and before a frame, 1..3 special bytes}, plus 1029 frames announcing more text bytes than present (printable checksum) followed by text; oracle = all accessors and the decoded message equal those of the frame alone, number = first 12 payload bits iff L >= 2; non-trivial = non-empty suffix; distinct by (frame, suffix) hash".into(),
         exhaustive: false,
         extra: json!({}),
     }
